@@ -82,10 +82,14 @@ Qed.
 
 (* ------------------------------------------------------------------ one device type *)
 (* what an allocated device satisfies, judged on the ledger *)
-Definition ledger_ok (l : ledger) (minors : list nat) (per : res) (m : nat) : Prop :=
+(* [b] says whether the request is known to fit: always, except for devices handed out by the
+   partition path, which fit when the request fits every GPU's total ([part_fit]) *)
+Definition ledger_ok (b : bool) (l : ledger) (minors : list nat) (per : res) (m : nat) : Prop :=
   In m minors /\
-  exists f, dget (free l) m = Some f /\ rle per (view_free l m f) = true /\
+  exists f, dget (free l) m = Some f /\ (b = true -> rle per (view_free l m f) = true) /\
             ris_zero (ores (dget (total l) m)) = false.
+Definition pfit_t (kind : Z) (t : nat) (tot : devres) (per : res) (shared : bool) : bool :=
+  negb (Nat.eqb t 0) || pfit kind tot per shared.
 
 Section OneLedger.
   Variable l : ledger.
@@ -94,7 +98,7 @@ Section OneLedger.
   Hypothesis Ht : dnonneg (total l).
   Hypothesis Hu : dnonneg (used l).
 
-  Lemma view_ok_ledger per m : view_ok (filter_view l minors) per m -> ledger_ok l minors per m.
+  Lemma view_ok_ledger b per m : view_ok (filter_view l minors) per m -> ledger_ok b l minors per m.
   Proof.
     intros [f' [Ef [Z R]]].
     destruct (dis_zero (free l) || match minors with [] => true | _ => false end) eqn:Hne.
@@ -140,7 +144,7 @@ Section OneLedger.
   Variable c : topo_ctx.
   Hypothesis Hcv : tc_view c = filter_view l minors.
 
-  Lemma topo_sat_ledger m : topo_sat c m = true -> In m minors -> ledger_ok l minors (tc_req c) m.
+  Lemma topo_sat_ledger b m : topo_sat c m = true -> In m minors -> ledger_ok b l minors (tc_req c) m.
   Proof.
     unfold topo_sat. rewrite Hcv. intros H Hin. apply andb_prop in H as [R Tz].
     destruct (dis_zero (free l) || match minors with [] => true | _ => false end) eqn:Hne.
@@ -157,6 +161,80 @@ Section OneLedger.
     rewrite view_total, view_free_entry, Ef, Mm by auto. cbn [ores]. apply andb_true_intro. split.
     - exact (view_free_rle_mono l FS Ht Hu m f Ef (tc_req c) R).
     - apply negb_true_iff. exact (free_nonzero_total l FS Ht Hu m f Ef Z).
+  Qed.
+
+  (* partitions *)
+  Variable ou : devres.
+  Hypothesis Hcu : tc_used c = real_used ou (filter_view l minors).
+
+  Lemma part_feasible_ledger p m : part_feasible c p = true -> In m p ->
+    ledger_ok (part_fit (total l) (tc_req c)) l minors (tc_req c) m.
+  Proof.
+    unfold part_feasible. rewrite Hcv, Hcu. intros H Hm. apply andb_prop in H as [D F].
+    rewrite forallb_forall in F. specialize (F m Hm).
+    destruct (dis_zero (free l) || match minors with [] => true | _ => false end) eqn:Hne.
+    { rewrite filter_view_empty in F by auto. cbn [total empty_ledger] in F. rewrite dget_nil in F. discriminate. }
+    rewrite view_total in F by auto.
+    destruct (dget (free l) m) as [f|] eqn:Ef; [|discriminate].
+    destruct (memn m minors) eqn:Mm; [|discriminate]. apply negb_true_iff in F.
+    split; [now apply memn_In|]. exists f. split; auto. split; auto.
+    intros PF.
+    (* m is not in use in the view *)
+    assert (Nu : dget (used (filter_view l minors)) m = None).
+    { unfold disjointb in D. apply negb_true_iff in D.
+      destruct (dget (used (filter_view l minors)) m) eqn:E; auto. exfalso.
+      assert (X : existsb (fun m0 => memn m0 (real_used ou (filter_view l minors))) p = true).
+      { apply existsb_exists. exists m. split; auto. apply memn_In. unfold real_used.
+        apply in_or_app. right. apply present_minors_In. unfold dget in E. congruence. }
+      congruence. }
+    rewrite view_used, Ef, Mm in Nu by auto.
+    destruct (ris_zero (view_u l m f)) eqn:Z; [|discriminate].
+    destruct (view_free_zero l FS Ht Hu m f Ef Z) as [-> _].
+    unfold part_fit in PF. rewrite forallb_forall in PF.
+    destruct (dget (total l) m) as [T|] eqn:ET; [|cbn in F; discriminate].
+    specialize (PF (Some T) (dget_In _ _ _ ET)). cbn beta iota in PF. cbn [ores] in F |- *.
+    rewrite F in PF. exact PF.
+  Qed.
+
+  Lemma part_free_feasible p : (forall m, In m p -> part_free_minor l minors m = true) ->
+    part_feasible c p = true.
+  Proof.
+    intros H. unfold part_feasible. rewrite Hcv, Hcu.
+    assert (Each : forall m, In m p ->
+              dget (total (filter_view l minors)) m = Some (ores (dget (total l) m)) /\
+              ris_zero (ores (dget (total l) m)) = false /\
+              dget (used (filter_view l minors)) m = None).
+    { intros m Hm. specialize (H m Hm). unfold part_free_minor in H.
+      apply andb_prop in H as [H Fr]. apply andb_prop in H as [Mm Tz]. apply negb_true_iff in Tz.
+      destruct (dget (free l) m) as [f|] eqn:Ef; [|discriminate]. rewrite forallb_forall in Fr.
+      assert (Fk : forall k t, rget (ores (dget (total l) m)) k = Some t -> rval f k = t).
+      { intros k t E. destruct (Nat.lt_ge_cases k 3) as [Lk|Lk].
+        - specialize (Fr k (slots_all k Lk)). rewrite E in Fr. apply Z.eqb_eq in Fr.
+          unfold dval in Fr. now rewrite Ef in Fr.
+        - rewrite rget_big in E by auto. discriminate. }
+      assert (Hne : dis_zero (free l) || match minors with [] => true | _ => false end = false).
+      { apply orb_false_iff. split.
+        - destruct (dis_zero (free l)) eqn:D; auto. rewrite dis_zero_spec in D. specialize (D m).
+          rewrite Ef in D. cbn [ores] in D. rewrite ris_zero_spec in D.
+          apply ris_zero_false in Tz as [k Hk]. unfold rval in Hk.
+          destruct (rget (ores (dget (total l) m)) k) as [t|] eqn:E; [|cbn in Hk; congruence].
+          cbn in Hk. rewrite <- (Fk k t E) in Hk. now rewrite D in Hk.
+        - apply memn_In in Mm. destruct minors; [destruct Mm|reflexivity]. }
+      rewrite view_total, view_used, Ef, Mm by auto. split; auto. split; auto.
+      assert (Z : ris_zero (view_u l m f) = true).
+      { apply ris_zero_spec. intros k. unfold rval. rewrite (rget_view_u l FS Ht Hu m f Ef).
+        destruct (rget (ores (dget (total l) m)) k) as [t|] eqn:E.
+        - cbn. rewrite (Fk k t E). lia.
+        - destruct (rget f k); reflexivity. }
+      now rewrite Z. }
+    apply andb_true_intro. split.
+    - unfold disjointb. apply negb_true_iff. destruct (existsb _ p) eqn:E; auto. exfalso.
+      apply existsb_exists in E as [m [Hm Mu]]. apply memn_In in Mu. unfold real_used in Mu.
+      destruct (Each m Hm) as [E1 [_ E3]]. apply in_app_or in Mu as [Mu|Mu].
+      + apply filter_In in Mu as [_ Mu]. now rewrite E1 in Mu.
+      + apply present_minors_In in Mu. unfold dget in E3. congruence.
+    - apply forallb_forall. intros m Hm. destruct (Each m Hm) as [E1 [E2 _]]. rewrite E1.
+      now apply negb_true_iff.
   Qed.
 
   Lemma view_free_val_nonneg m k : 0 <= rval (ores (dget (free (filter_view l minors)) m)) k.
@@ -191,7 +269,42 @@ Proof.
   eapply slot_score_nonneg; eauto.
 Qed.
 
+(* what the partition path returns *)
+Lemma part_alloc_some kind c ms : part_alloc kind c = PSome ms ->
+  tc_shared c = false /\ has_part_table kind = true /\
+  exists ps, hopper_table (tc_n c) = Some ps /\ In ms ps /\ part_feasible c ms = true.
+Proof.
+  unfold part_alloc. destruct (tc_shared c); [destruct (honor_part kind); discriminate|].
+  destruct (has_part_table kind); cbn [negb]; [|destruct (honor_part kind); discriminate].
+  destruct (hopper_table (tc_n c)) as [ps|] eqn:E; [|destruct (honor_part kind); discriminate].
+  destruct (filter (part_feasible c) ps) as [|f0 fs] eqn:F; [destruct (honor_part kind); discriminate|].
+  intros H.
+  assert (Hs : ms = select_part (tc_used c) (tc_n c) (f0 :: fs)) by (destruct (honor_part kind); congruence).
+  assert (Hin : In ms (filter (part_feasible c) ps)).
+  { rewrite F, Hs. apply select_part_in. discriminate. }
+  apply filter_In in Hin as [H1 H2]. repeat split; auto. exists ps. auto.
+Qed.
+Lemma part_alloc_fail kind c : part_alloc kind c = PFail ->
+  honor_part kind = true /\ tc_shared c = false /\
+  (hopper_table (tc_n c) = None \/
+   exists ps, hopper_table (tc_n c) = Some ps /\ forall p, In p ps -> part_feasible c p = false).
+Proof.
+  unfold part_alloc. destruct (tc_shared c); [destruct (honor_part kind); discriminate|].
+  destruct (honor_part kind) eqn:Hh.
+  2:{ destruct (has_part_table kind); cbn [negb]; try discriminate.
+      destruct (hopper_table (tc_n c)); try discriminate.
+      destruct (filter (part_feasible c) l); discriminate. }
+  assert (Ht : has_part_table kind = true).
+  { unfold honor_part in Hh. unfold has_part_table. now rewrite Hh. }
+  rewrite Ht. cbn [negb]. destruct (hopper_table (tc_n c)) as [ps|] eqn:E; [|auto].
+  destruct (filter (part_feasible c) ps) as [|f0 fs] eqn:F; [|discriminate].
+  intros _. repeat split; auto. right. exists ps. split; auto. intros p Hp.
+  destruct (part_feasible c p) eqn:Fp; auto.
+  assert (In p (filter (part_feasible c) ps)) by (apply filter_In; auto). rewrite F in H. destruct H.
+Qed.
+
 Section CoreAlloc.
+  Variable kind : Z.
   Variable infos : list devinfo.
   Variable t : nat.
   Variable orig_used : devres.
@@ -204,17 +317,25 @@ Section CoreAlloc.
   Variable count : Z.
   Variable shared scored : bool.
   Hypothesis Hcount : 1 <= count.
+  Definition core_ctx := mkCtx (desired_count count) shared scored per (filter_view l minors)
+                 (build_total infos 0) (real_used orig_used (filter_view l minors)).
+  Notation c := core_ctx.
+  Definition general :=
+    if Nat.eqb t 0 && gpu_topo_ok infos && negb (shared && (1 <? count)) then
+      match root_alloc c (root_minors infos) (numa_scopes infos) with
+      | Some r => Some (map (fun m => (m, per)) (sr_minors r))
+      | None => None
+      end
+    else default_allocate t scored (filter_view l minors) per (desired_count count) (desired_count count).
 
-  Lemma alloc_core_sound al :
-    alloc_core scored infos t orig_used l per count shared = Some al ->
+  Lemma general_sound b al :
+    general = Some al ->
     length al = desired_count count /\ NoDup (map fst al) /\
-    forall a, In a al -> snd a = per /\ ledger_ok l minors per (fst a).
+    forall a, In a al -> snd a = per /\ ledger_ok b l minors per (fst a).
   Proof.
-    unfold alloc_core. fold minors.
+    unfold general.
     destruct (Nat.eqb t 0 && gpu_topo_ok infos && negb (shared && (1 <? count))) eqn:Br.
-    - set (c := mkCtx (desired_count count) shared scored per (filter_view l minors)
-                      (build_total infos 0) (real_used orig_used (filter_view l minors))).
-      destruct (root_alloc c (root_minors infos) (numa_scopes infos)) as [r|] eqn:R; [|discriminate].
+    - destruct (root_alloc c (root_minors infos) (numa_scopes infos)) as [r|] eqn:R; [|discriminate].
       intros H. injection H as <-.
       apply andb_prop in Br as [Br Bs]. apply andb_prop in Br as [Bt _].
       apply Nat.eqb_eq in Bt.
@@ -233,22 +354,18 @@ Section CoreAlloc.
       + rewrite map_map. cbn [fst]. now rewrite map_id.
       + intros a Ha. apply in_map_iff in Ha as [m [<- Hm]]. cbn [fst snd]. split; auto.
         destruct (Hall m Hm) as [Hin Hs].
-        apply (topo_sat_ledger l minors c eq_refl m Hs Hin).
+        apply (topo_sat_ledger l minors c eq_refl b m Hs Hin).
     - intros H. apply default_allocate_sound in H as [Len [ND Hall]].
       split; auto. split; auto. intros a Ha. destruct (Hall a Ha) as [E V]. split; auto.
       now apply view_ok_ledger.
   Qed.
 
-  Lemma alloc_core_complete :
-    alloc_core scored infos t orig_used l per count shared = None ->
-    (eligible_count l minors per < desired_count count)%nat.
+  Lemma general_complete :
+    general = None -> (eligible_count l minors per < desired_count count)%nat.
   Proof.
-    unfold alloc_core. fold minors. unfold eligible_count.
-    fold (elig_list l minors per).
+    unfold general, eligible_count. fold (elig_list l minors per).
     destruct (Nat.eqb t 0 && gpu_topo_ok infos && negb (shared && (1 <? count))) eqn:Br.
-    - set (c := mkCtx (desired_count count) shared scored per (filter_view l minors)
-                      (build_total infos 0) (real_used orig_used (filter_view l minors))).
-      destruct (root_alloc c (root_minors infos) (numa_scopes infos)) as [r|] eqn:R; [discriminate|].
+    - destruct (root_alloc c (root_minors infos) (numa_scopes infos)) as [r|] eqn:R; [discriminate|].
       intros _. apply andb_prop in Br as [Br Bs]. apply andb_prop in Br as [Bt _].
       apply Nat.eqb_eq in Bt.
       change (desired_count count) with (tc_n c).
@@ -263,21 +380,69 @@ Section CoreAlloc.
       intros m Hm. unfold elig_list in Hm. apply filter_In in Hm as [_ Hm].
       now apply eligible_view_ok.
   Qed.
+
+  Lemma alloc_core_unfold :
+    alloc_core kind scored infos t orig_used l per count shared =
+    if Nat.eqb t 0 then match part_alloc kind c with
+                        | PSome ms => Some (map (fun m => (m, per)) ms)
+                        | PFail => None
+                        | PNone => general
+                        end
+    else general.
+  Proof. reflexivity. Qed.
+
+  Lemma alloc_core_sound al :
+    alloc_core kind scored infos t orig_used l per count shared = Some al ->
+    length al = desired_count count /\ NoDup (map fst al) /\
+    forall a, In a al -> snd a = per /\ ledger_ok (pfit_t kind t (total l) per shared) l minors per (fst a).
+  Proof.
+    rewrite alloc_core_unfold. destruct (Nat.eqb t 0) eqn:Et; [|apply general_sound].
+    destruct (part_alloc kind c) as [| |ms] eqn:P; [apply general_sound|discriminate|].
+    intros H. injection H as <-.
+    destruct (part_alloc_some _ _ _ P) as [Sh [Hh [ps [Ep [Hin Fe]]]]]. cbn [tc_n tc_shared c] in *.
+    destruct (hopper_table_spec _ _ _ Ep Hin) as [Len ND].
+    split; [now rewrite map_length|]. split; [rewrite map_map; cbn [fst]; now rewrite map_id|].
+    intros a Ha. apply in_map_iff in Ha as [m [<- Hm]]. cbn [fst snd]. split; auto.
+    pose proof (part_feasible_ledger l minors FS Ht Hu c eq_refl orig_used eq_refl ms m Fe Hm) as Lo.
+    cbn [tc_req c] in Lo. destruct Lo as [H1 [f [H2 [H3 H4]]]].
+    split; auto. exists f. split; auto. split; auto. intros Pf. apply H3.
+    unfold pfit_t, pfit in Pf. rewrite Et, Hh, Sh in Pf. exact Pf.
+  Qed.
+
+  Lemma alloc_core_complete :
+    alloc_core kind scored infos t orig_used l per count shared = None ->
+    (eligible_count l minors per < desired_count count)%nat \/
+    (t = 0%nat /\ part_short kind l minors count shared = true).
+  Proof.
+    rewrite alloc_core_unfold. destruct (Nat.eqb t 0) eqn:Et; [|left; now apply general_complete].
+    destruct (part_alloc kind c) as [| |ms] eqn:P; [left; now apply general_complete| |discriminate].
+    intros _. right. apply Nat.eqb_eq in Et. split; auto.
+    destruct (part_alloc_fail _ _ P) as [Hh [Sh Hc]]. cbn [tc_n tc_shared c] in *.
+    unfold part_short. rewrite Hh, Sh. cbn [negb andb].
+    destruct Hc as [-> | [ps [-> Hps]]]; auto.
+    apply forallb_forall. intros p Hp. apply negb_true_iff.
+    destruct (forallb (part_free_minor l minors) p) eqn:F; auto.
+    rewrite forallb_forall in F.
+    pose proof (part_free_feasible l minors FS Ht Hu c eq_refl orig_used eq_refl p F) as Fe.
+    rewrite (Hps p Hp) in Fe. discriminate.
+  Qed.
 End CoreAlloc.
 
-Lemma alloc_type_sound ls infos t per count shared scored al :
+Lemma alloc_type_sound kind ls infos t per count shared scored al :
   lgood (ledger_of ls t) -> 1 <= count ->
-  alloc_type scored ls infos t per count shared = Some al ->
+  alloc_type kind scored ls infos t per count shared = Some al ->
   length al = desired_count count /\ NoDup (map fst al) /\
-  forall a, In a al -> snd a = per /\ ledger_ok (ledger_of ls t) (minors_of infos t) per (fst a).
+  forall a, In a al -> snd a = per /\
+    ledger_ok (pfit_t kind t (total (ledger_of ls t)) per shared) (ledger_of ls t) (minors_of infos t) per (fst a).
 Proof.
   intros G Hc. unfold alloc_type.
   apply alloc_core_sound; auto; [apply G|apply G|now apply lgood_used_nonneg].
 Qed.
-Lemma alloc_type_complete ls infos t per count shared scored :
+Lemma alloc_type_complete kind ls infos t per count shared scored :
   lgood (ledger_of ls t) -> 1 <= count ->
-  alloc_type scored ls infos t per count shared = None ->
-  (eligible_count (ledger_of ls t) (minors_of infos t) per < desired_count count)%nat.
+  alloc_type kind scored ls infos t per count shared = None ->
+  (eligible_count (ledger_of ls t) (minors_of infos t) per < desired_count count)%nat \/
+  (t = 0%nat /\ part_short kind (ledger_of ls t) (minors_of infos t) count shared = true).
 Proof.
   intros G Hc. unfold alloc_type.
   apply alloc_core_complete; auto; [apply G|apply G|now apply lgood_used_nonneg].
@@ -333,20 +498,21 @@ Definition granted (t : nat) (tot : devres) (per : res) (a : alloc) : Prop :=
   (t <> 0%nat -> snd a = per) /\
   (t = 0%nat -> r2 (snd a) = Some (Z.quot (oz (r1 per) * rval (ores (dget tot (fst a))) 2) 100)).
 
-Definition type_done (ls : list ledger) (infos : list devinfo) (rq : rawreq) (t : nat)
+Definition type_done (kind : Z) (ls : list ledger) (infos : list devinfo) (rq : rawreq) (t : nat)
            (al : list alloc) : Prop :=
   match treq_of rq t with
   | TReq per count sh =>
       length al = desired_count count /\ NoDup (map fst al) /\
-      forall a, In a al -> ledger_ok (ledger_of ls t) (minors_of infos t) per (fst a)
-                           /\ granted t (total (ledger_of ls t)) per a
+      forall a, In a al ->
+        ledger_ok (pfit_t kind t (total (ledger_of ls t)) per sh) (ledger_of ls t) (minors_of infos t) per (fst a)
+        /\ granted t (total (ledger_of ls t)) per a
   | _ => al = []
   end.
 
-Definition pt (ls : list ledger) (infos : list devinfo) (rq : rawreq) (t : nat)
+Definition pt (kind : Z) (ls : list ledger) (infos : list devinfo) (rq : rawreq) (t : nat)
   : option (option (list alloc)) :=
   match treq_of rq t with
-  | TReq per count sh => Some (alloc_type true ls infos t per count sh)
+  | TReq per count sh => Some (alloc_type kind true ls infos t per count sh)
   | _ => None
   end.
 Definition al_of (o : option (option (list alloc))) : list alloc :=
@@ -354,54 +520,57 @@ Definition al_of (o : option (option (list alloc))) : list alloc :=
 Definition is_refused (o : option (option (list alloc))) : bool :=
   match o with Some None => true | _ => false end.
 
-Lemma pt_spec ls infos rq t :
-  lgood (ledger_of ls t) -> is_refused (pt ls infos rq t) = false ->
+Lemma pt_spec kind ls infos rq t :
+  lgood (ledger_of ls t) -> is_refused (pt kind ls infos rq t) = false ->
   match treq_of rq t with
   | TReq per count sh =>
-      let al := al_of (pt ls infos rq t) in
+      let al := al_of (pt kind ls infos rq t) in
       length al = desired_count count /\ NoDup (map fst al) /\
-      forall a, In a al -> snd a = per /\ ledger_ok (ledger_of ls t) (minors_of infos t) per (fst a)
-  | _ => al_of (pt ls infos rq t) = []
+      forall a, In a al -> snd a = per /\
+        ledger_ok (pfit_t kind t (total (ledger_of ls t)) per sh) (ledger_of ls t) (minors_of infos t) per (fst a)
+  | _ => al_of (pt kind ls infos rq t) = []
   end.
 Proof.
   intros G. unfold pt. destruct (treq_of rq t) as [| |per count sh] eqn:E; auto.
-  destruct (alloc_type true ls infos t per count sh) as [al|] eqn:A; [|discriminate].
+  destruct (alloc_type kind true ls infos t per count sh) as [al|] eqn:A; [|discriminate].
   intros _. cbn [al_of]. apply treq_spec in E as [Hc _].
   eapply alloc_type_sound; eauto.
 Qed.
 
-Lemma allocate_unfold ls infos rq :
-  allocate ls infos rq =
+Lemma allocate_unfold kind ls infos rq :
+  allocate kind ls infos rq =
   if is_invalid (treq_of rq 0) || (is_invalid (treq_of rq 1) || (is_invalid (treq_of rq 2) || false))
   then AFail c_unresolvable
   else if negb (is_req (treq_of rq 0) || (is_req (treq_of rq 1) || (is_req (treq_of rq 2) || false)))
   then ASkip
   else if no_device_t ls 0 rq || (no_device_t ls 1 rq || (no_device_t ls 2 rq || false))
   then AFail c_unresolvable
-  else if is_refused (pt ls infos rq 0) || (is_refused (pt ls infos rq 1) || (is_refused (pt ls infos rq 2) || false))
+  else if part_unsupported kind (treq_of rq 0) then AFail c_unresolvable
+  else if is_refused (pt kind ls infos rq 0) || (is_refused (pt kind ls infos rq 1) || (is_refused (pt kind ls infos rq 2) || false))
   then AFail c_unsched
-  else match fill_all (total (ledger_of ls 0)) (al_of (pt ls infos rq 0)) with
+  else match fill_all (total (ledger_of ls 0)) (al_of (pt kind ls infos rq 0)) with
        | None => AFail c_error
-       | Some g => ADone [g; al_of (pt ls infos rq 1); al_of (pt ls infos rq 2)]
+       | Some g => ADone [g; al_of (pt kind ls infos rq 1); al_of (pt kind ls infos rq 2)]
        end.
 Proof. reflexivity. Qed.
 
-Lemma allocate_done ls infos rq da :
-  (forall t, lgood (ledger_of ls t)) -> allocate ls infos rq = ADone da ->
-  forall t, (t < 3)%nat -> type_done ls infos rq t (allocs_of da t).
+Lemma allocate_done kind ls infos rq da :
+  (forall t, lgood (ledger_of ls t)) -> allocate kind ls infos rq = ADone da ->
+  forall t, (t < 3)%nat -> type_done kind ls infos rq t (allocs_of da t).
 Proof.
   intros G. rewrite allocate_unfold.
   destruct (is_invalid (treq_of rq 0) || _); [discriminate|].
   destruct (negb _); [discriminate|].
   destruct (no_device_t ls 0 rq || _); [discriminate|].
-  destruct (is_refused (pt ls infos rq 0) || _) eqn:R; [discriminate|].
+  destruct (part_unsupported kind (treq_of rq 0)); [discriminate|].
+  destruct (is_refused (pt kind ls infos rq 0) || _) eqn:R; [discriminate|].
   apply orb_false_iff in R as [R0 R]. apply orb_false_iff in R as [R1 R].
   apply orb_false_iff in R as [R2 _].
-  destruct (fill_all (total (ledger_of ls 0)) (al_of (pt ls infos rq 0))) as [g|] eqn:F; [|discriminate].
+  destruct (fill_all (total (ledger_of ls 0)) (al_of (pt kind ls infos rq 0))) as [g|] eqn:F; [|discriminate].
   intros H. injection H as <-. intros t Ht.
-  pose proof (pt_spec ls infos rq 0 (G 0%nat) R0) as P0.
-  pose proof (pt_spec ls infos rq 1 (G 1%nat) R1) as P1.
-  pose proof (pt_spec ls infos rq 2 (G 2%nat) R2) as P2.
+  pose proof (pt_spec kind ls infos rq 0 (G 0%nat) R0) as P0.
+  pose proof (pt_spec kind ls infos rq 1 (G 1%nat) R1) as P1.
+  pose proof (pt_spec kind ls infos rq 2 (G 2%nat) R2) as P2.
   unfold type_done. destruct t as [|[|[|t]]]; [| | |lia]; cbn [allocs_of nth].
   - apply fill_all_spec in F. destruct (treq_of rq 0) as [| |per count sh] eqn:E.
     + rewrite P0 in F. now inversion F.
@@ -425,12 +594,13 @@ Proof.
     unfold granted. rewrite Es. repeat split; auto. intros; discriminate.
 Qed.
 
-Lemma allocate_fail ls infos rq code :
-  (forall t, lgood (ledger_of ls t)) -> allocate ls infos rq = AFail code ->
+Lemma allocate_fail kind ls infos rq code :
+  (forall t, lgood (ledger_of ls t)) -> allocate kind ls infos rq = AFail code ->
   (code = c_unresolvable /\
    (existsb (fun t => is_invalid (treq_of rq t)) type_ids
-    || existsb (fun t => no_device_t ls t rq) type_ids) = true)
-  \/ (code = c_unsched /\ existsb (fun t => alloc_short_t ls infos t rq) type_ids = true).
+    || existsb (fun t => no_device_t ls t rq) type_ids
+    || part_unsupported kind (treq_of rq 0)) = true)
+  \/ (code = c_unsched /\ existsb (fun t => alloc_short_t kind ls infos t rq) type_ids = true).
 Proof.
   intros G. rewrite allocate_unfold. cbn [existsb type_ids].
   destruct (is_invalid (treq_of rq 0) || _) eqn:I.
@@ -438,26 +608,31 @@ Proof.
   destruct (negb _); [discriminate|].
   destruct (no_device_t ls 0 rq || _) eqn:N.
   { intros H. injection H as <-. left. split; auto. }
-  destruct (is_refused (pt ls infos rq 0) || _) eqn:R.
+  destruct (part_unsupported kind (treq_of rq 0)) eqn:Pu.
+  { intros H. injection H as <-. left. split; auto. }
+  destruct (is_refused (pt kind ls infos rq 0) || _) eqn:R.
   { intros H. injection H as <-. right. split; auto.
-    assert (P : forall t, is_refused (pt ls infos rq t) = true -> alloc_short_t ls infos t rq = true).
+    assert (P : forall t, is_refused (pt kind ls infos rq t) = true -> alloc_short_t kind ls infos t rq = true).
     { intros t. unfold pt, alloc_short_t. destruct (treq_of rq t) as [| |per count sh] eqn:E; try discriminate.
-      destruct (alloc_type true ls infos t per count sh) eqn:A; [discriminate|]. intros _.
-      apply Nat.ltb_lt. apply treq_spec in E as [Hc _]. eapply alloc_type_complete; eauto. }
+      destruct (alloc_type kind true ls infos t per count sh) eqn:A; [discriminate|]. intros _.
+      apply treq_spec in E as [Hc _].
+      destruct (alloc_type_complete kind ls infos t per count sh true (G t) Hc A) as [Hlt|[-> Hp]].
+      - apply orb_true_iff. left. now apply Nat.ltb_lt.
+      - apply orb_true_iff. right. now rewrite Hp. }
     apply orb_true_iff in R as [R|R]; [rewrite (P _ R); reflexivity|].
     apply orb_true_iff in R as [R|R]; [rewrite (P _ R); apply orb_true_iff; right; reflexivity|].
     apply orb_true_iff in R as [R|R]; [|discriminate].
     rewrite (P _ R). rewrite !orb_true_r. reflexivity. }
   apply orb_false_iff in R as [R0 _].
-  destruct (fill_all (total (ledger_of ls 0)) (al_of (pt ls infos rq 0))) eqn:F; [discriminate|].
+  destruct (fill_all (total (ledger_of ls 0)) (al_of (pt kind ls infos rq 0))) eqn:F; [discriminate|].
   exfalso. revert F. apply fill_all_total. intros a Ha.
-  pose proof (pt_spec ls infos rq 0 (G 0%nat) R0) as P0.
+  pose proof (pt_spec kind ls infos rq 0 (G 0%nat) R0) as P0.
   destruct (treq_of rq 0) as [| |per count sh]; try (rewrite P0 in Ha; destruct Ha).
   cbn zeta in P0. destruct P0 as [_ [_ Hall]]. destruct (Hall a Ha) as [_ [_ [f [_ [_ Z]]]]]. exact Z.
 Qed.
 
-Lemma allocate_skip ls infos rq :
-  allocate ls infos rq = ASkip ->
+Lemma allocate_skip kind ls infos rq :
+  allocate kind ls infos rq = ASkip ->
   existsb (fun t => is_req (treq_of rq t) || is_invalid (treq_of rq t)) type_ids = false.
 Proof.
   rewrite allocate_unfold. cbn [existsb type_ids].
@@ -471,8 +646,8 @@ Proof.
 Qed.
 
 (* the code of a refusal is one of the three failure codes (never the success code) *)
-Lemma allocate_fail_codes ls infos rq code :
-  allocate ls infos rq = AFail code -> code = c_unresolvable \/ (code = c_unsched \/ code = c_error).
+Lemma allocate_fail_codes kind ls infos rq code :
+  allocate kind ls infos rq = AFail code -> code = c_unresolvable \/ (code = c_unsched \/ code = c_error).
 Proof.
   rewrite allocate_unfold.
   repeat match goal with |- context [if ?b then _ else _] => destruct b end;
